@@ -284,7 +284,11 @@ func builtinMakeValidator(env *lisp.LEnv, args *lisp.LVal) *lisp.LVal {
 		if lname.Str != "lisp:typedef" {
 			return lisp.ErrorConditionf(BadArgs, "First argument must resolve to a string or typedef")
 		}
-		name = lname.UserData().Cells[0].Str
+		tname, _, ok := lisp.TypedefParts(lname)
+		if !ok {
+			return lisp.ErrorConditionf(BadArgs, "First argument must resolve to a string or typedef")
+		}
+		name = tname.Str
 		taggedConstraints := []*lisp.LVal{typeValidator}
 		taggedConstraints = append(taggedConstraints, constraints...)
 		constraints = taggedConstraints
